@@ -19,6 +19,8 @@ pub fn def() -> PropDef {
         needed_probes: &["c07_boundary_checked", "c07_recreate_seen", "c07_nonrestartable_request", "c07_restart_with_live_timer", "c07_start_error_on_restart"],
         quick_runs: 30_000,
         thorough_runs: 2_000_000,
+        block: 1,
+        flavours: &["tokio"],
     }
 }
 
